@@ -13,6 +13,15 @@ impl Binder {
         }
         let cols = self.bind_table_columns(&insert.table_name, &insert.columns)?;
         let source = self.bind_query(*source)?.0;
+        // every target column takes exactly one value
+        let (expected, actual) = (self.node(cols).as_list().len(), self.schema(source).len());
+        if expected != actual {
+            let name = lower_case_name(&insert.table_name);
+            return Err(
+                ErrorKind::ColumnCountMismatch(name.to_string(), expected, actual)
+                    .with_spanned(&insert.table_name),
+            );
+        }
         let id = self.egraph.add(Node::Insert([table, cols, source]));
         Ok(id)
     }
